@@ -83,7 +83,8 @@ class Ctx:
             return False
         os.makedirs(os.path.join(ROOT, "replays"), exist_ok=True)
         path = os.path.join(ROOT, "replays", "%s_%d.json" % (self.prop, len(self.violations)))
-        if len(self.violations) < 25:
+        first_of_key = not any(k == key for k, _, _ in self.violations)
+        if first_of_key and len({k for k, _, _ in self.violations}) < 80 or len(self.violations) < 10:
             json.dump({"property": self.prop, "key": key, "what": what, "replay": replay}, open(path, "w"),
                       indent=1, default=repr)
         self.violations.append((key, what, path))
@@ -100,12 +101,12 @@ class Ctx:
         shown = 0
         for key, what, path in self.violations:
             per_key[key] = per_key.get(key, 0) + 1
-            if per_key[key] <= 2 and shown < 40:
+            if per_key[key] <= 1 and shown < 80:
                 shown += 1
                 print("VIOLATION property=%s replay=%s  # %s :: %s" % (self.prop, path, key, what))
         for key, n in per_key.items():
-            if n > 2:
-                print("  (... %d more violations with key %s)" % (n - 2, key))
+            if n > 1:
+                print("  (... %d more violations with key %s)" % (n - 1, key))
         ev = {"property_id": self.prop, "tier": self.tier, "seed": self.seed, "level": self.level,
               "coverage": self.cov, "assumptions": self.assumptions, "wall_s": wall,
               "violations": len(self.violations),
